@@ -20,7 +20,7 @@ func init() {
 			"(R1) every function that places rows into a table chosen with user-supplied relation targets registers those targets; (R2) every caller of pool-recycle tests the target flag of the recycled entity and, when set, runs the cleanup and clears the flag; " +
 			"(R3) free protocol: at every site that frees a table (sets its free flag) the operation removes the table from all four lookup containers — the archetype's active list, the per-column target index, the per-target table index (for every target of the table) and every cached filter; tables put on a free list are marked free, tables taken from it are recycled; " +
 			"(R4) every path that activates a table registers it with the archetype and the filter cache; (R5) relation component/target validity checks precede taking or creating the table; (R6) exact table lookup compares whole entities (id and generation); " +
-			"(R7) the per-column target index is indexed by column index only; (R8) the target-validity check is unreachable from the target cleanup: after a batch removal the remaining targets of a table may be entities of the same batch that are still to be cleaned up, so validating them can only fail a valid call; (R9) the lookup containers are sets: a table id is appended to a table-id container outside loops, or to a container selected by the loop variable itself, or under a negative membership test; (R10 = C01/R8) the relation list a table is created or recycled with is never derived from a scratch buffer; (R11) a local slice or mask that is filled and consumed inside a loop but declared outside it (and not read after it) is emptied inside that loop, so that the relations collected for one table are not applied to the next; (R12) the per-target table index drops a target's entry only in the function that removes the target from every relation column, or under a test that the entry's own list is empty. Not decided: multi-step target-death histories; that the protocols compose.",
+			"(R7) the per-column target index is indexed by column index only; (R8) the target-validity check is unreachable from the target cleanup: after a batch removal the remaining targets of a table may be entities of the same batch that are still to be cleaned up, so validating them can only fail a valid call; (R9) the lookup containers are sets: a table id is appended to a table-id container outside loops, or to a container selected by the loop variable itself, or under a negative membership test; (R10 = C01/R8) the relation list a table is created or recycled with is never derived from a scratch buffer; (R11) a local slice or mask that is filled and consumed inside a loop but declared outside it (and not read after it) is emptied inside that loop, so that the relations collected for one table are not applied to the next; (R12) the per-target table index drops a target's entry only in the function that removes the target from every relation column, or under a test that the entry's own list is empty; (R13) a list that several objects may share is never overwritten in place: bulk in-place writes (append to a re-slice, copy into) into a slice field of a persistent object are admitted only when no list read from that field (of any object) can reach a store into a persistent field (path-sensitive taint analysis, through locals, parameters, helper results and retaining callees); the per-column purge of the free protocol (R3) must run for every relation column: inside the loop over the columns it may depend only on the column being a relation column and on its own lookup. Not decided: multi-step target-death histories; that the protocols compose.",
 		TrustedBase: []string{"go/types, go/cfg", "container purge summaries derived from loops over the lookup containers", "single-relation idiom: a table of an archetype with one relation has exactly one target"},
 		Rules: []Rule{
 			{ID: "C04/R1", Run: c04r1, Min: 1},
@@ -35,6 +35,7 @@ func init() {
 			{ID: "C01/R8", Run: c01r8, Min: 1},
 			{ID: "C04/R11", Run: c04r11, Min: 1},
 			{ID: "C04/R12", Run: c04r12, Min: 1},
+			{ID: "C04/R13", Run: c04r13, Min: 1},
 		},
 	})
 }
@@ -612,6 +613,106 @@ func summarizePurge(c *core.Ctx, f *core.Func) *purgeSummary {
 					recv, ok := isRemoveOfTable(call)
 					if !ok {
 						return true
+					}
+					// "for every relation column": inside the loop the purge may depend only on the column being a
+					// relation column and on its own lookup succeeding; any other condition (a skipped target, a
+					// skipped column) leaves entries behind
+					{
+						// conditions the call depends on inside the loop body: those of the enclosing ifs and those of
+						// earlier ifs whose branch leaves the iteration
+						var conds []ast.Expr
+						leaves := func(l []ast.Stmt) bool {
+							if len(l) == 0 {
+								return false
+							}
+							switch b := l[len(l)-1].(type) {
+							case *ast.BranchStmt:
+								return b.Tok == token.CONTINUE || b.Tok == token.BREAK
+							case *ast.ReturnStmt:
+								return true
+							}
+							return false
+						}
+						inside := func(n ast.Node) bool { return n != nil && n.Pos() <= call.Pos() && call.End() <= n.End() }
+						var walkList func(l []ast.Stmt)
+						walkList = func(l []ast.Stmt) {
+							for _, st := range l {
+								is, isIf := st.(*ast.IfStmt)
+								if !inside(st) {
+									if isIf && (leaves(is.Body.List) || (is.Else != nil && func() bool { eb, ok := is.Else.(*ast.BlockStmt); return ok && leaves(eb.List) }())) {
+										conds = append(conds, is.Cond)
+									}
+									continue
+								}
+								switch y := st.(type) {
+								case *ast.IfStmt:
+									conds = append(conds, y.Cond)
+									if inside(y.Body) {
+										walkList(y.Body.List)
+									} else if eb, ok := y.Else.(*ast.BlockStmt); ok && inside(eb) {
+										walkList(eb.List)
+									} else if ei, ok := y.Else.(*ast.IfStmt); ok && inside(ei) {
+										walkList([]ast.Stmt{ei})
+									}
+								case *ast.BlockStmt:
+									walkList(y.List)
+								case *ast.ForStmt:
+									if y.Cond != nil {
+										conds = append(conds, y.Cond)
+									}
+									walkList(y.Body.List)
+								case *ast.RangeStmt:
+									walkList(y.Body.List)
+								case *ast.SwitchStmt:
+									if y.Tag != nil {
+										conds = append(conds, y.Tag)
+									}
+									for _, cc := range y.Body.List {
+										if cl, ok := cc.(*ast.CaseClause); ok && inside(cl) {
+											conds = append(conds, cl.List...)
+											walkList(cl.Body)
+										}
+									}
+								}
+								return
+							}
+						}
+						walkList(x.Body.List)
+						fine := func(e ast.Expr) bool {
+							all := true
+							ast.Inspect(e, func(z ast.Node) bool {
+								switch w := z.(type) {
+								case *ast.Ident:
+									if w.Name == "ok" || w.Name == "found" || w.Name == "nil" {
+										return true
+									}
+									if tv, isV := m.Info.ObjectOf(w).(*types.Var); isV && !tv.IsField() {
+										// the column variable itself, the lookup result compared with nil
+										return true
+									}
+								case *ast.SelectorExpr:
+									if k := fieldKeyOf(m, w); k == "column.isRelation" || k == "archetype.isRelation" {
+										return false
+									}
+									all = false
+									return false
+								case *ast.CallExpr:
+									all = false
+									return false
+								}
+								return true
+							})
+							return all
+						}
+						extra := ""
+						for _, e := range conds {
+							if !fine(e) {
+								extra = m.ExprString(e)
+							}
+						}
+						if extra != "" {
+							return true
+						}
 					}
 					// recv is a local defined from `a.<container>[...][column.target.id]` lookups
 					src := recv
